@@ -7,3 +7,12 @@ Lib/ZOps.vos Lib/ZOps.vok Lib/ZOps.required_vos: Lib/ZOps.v
 Lib/Machine.vo Lib/Machine.glob Lib/Machine.v.beautified Lib/Machine.required_vo: Lib/Machine.v Lib/ZOps.vo
 Lib/Machine.vio: Lib/Machine.v Lib/ZOps.vio
 Lib/Machine.vos Lib/Machine.vok Lib/Machine.required_vos: Lib/Machine.v Lib/ZOps.vos
+Lib/Sweep.vo Lib/Sweep.glob Lib/Sweep.v.beautified Lib/Sweep.required_vo: Lib/Sweep.v 
+Lib/Sweep.vio: Lib/Sweep.v 
+Lib/Sweep.vos Lib/Sweep.vok Lib/Sweep.required_vos: Lib/Sweep.v 
+Lib/Digest.vo Lib/Digest.glob Lib/Digest.v.beautified Lib/Digest.required_vo: Lib/Digest.v Lib/U63Ops.vo
+Lib/Digest.vio: Lib/Digest.v Lib/U63Ops.vio
+Lib/Digest.vos Lib/Digest.vok Lib/Digest.required_vos: Lib/Digest.v Lib/U63Ops.vos
+Props/MapProps.vo Props/MapProps.glob Props/MapProps.v.beautified Props/MapProps.required_vo: Props/MapProps.v Lib/U63Ops.vo Lib/Sweep.vo
+Props/MapProps.vio: Props/MapProps.v Lib/U63Ops.vio Lib/Sweep.vio
+Props/MapProps.vos Props/MapProps.vok Props/MapProps.required_vos: Props/MapProps.v Lib/U63Ops.vos Lib/Sweep.vos
